@@ -58,17 +58,17 @@ theorem adjBody_shift (n old : Int) : adjBody n old = adjBody (n - old) 0 := by
       have b : ¬ (n - old < 0) := by omega
       simp [h1, h2, b]
 
-/-- `step (.setMax n)` is `SetMaxCount(n)`'s synchronous part: the new `realCapacity`, and a pending
-goroutine whose recorded actions are those of the translated goroutine body. -/
-theorem setMax_step_is_setMaxCount (c : Cap) (n : Int) (h0 : 0 ≤ n) (hM : n ≤ M) :
+/-- `step (.setMax n)` is `SetMaxCount(n)`'s synchronous part for **every** `n ≥ 0` (the clamp to
+`maxCapacity` included): the new `realCapacity`, and a pending goroutine whose recorded actions are those of
+the translated goroutine body for the stored difference. -/
+theorem setMax_step_is_setMaxCount (c : Cap) (n : Int) (h0 : 0 ≤ n) :
     step c (.setMax n) = some { c with realCap := (setMaxCount c.realCap n).1,
-                                       pending := c.pending ++ [(c.nextAdj, n - c.realCap)],
+                                       pending := c.pending ++ [(c.nextAdj, (setMaxCount c.realCap n).1 - c.realCap)],
                                        nextAdj := c.nextAdj + 1 } ∧
-    (setMaxCount c.realCap n).2 = adjBody (n - c.realCap) 0 := by
-  have hc : ¬ n > M := by omega
+    (setMaxCount c.realCap n).2 = adjBody ((setMaxCount c.realCap n).1 - c.realCap) 0 := by
   constructor
-  · simp only [step, setMaxCount, hc, if_false, h0, hM, and_self, if_true]
-  · simp only [setMaxCount, hc, if_false]; exact adjBody_shift n c.realCap
+  · simp only [step, h0, if_true]
+  · simp only [setMaxCount]; exact adjBody_shift _ c.realCap
 
 /-- a request above `maxCapacity` is the request for `maxCapacity` -/
 theorem setMaxCount_clamped (realCap n : Int) (h : n > M) : setMaxCount realCap n = setMaxCount realCap M := by
